@@ -48,8 +48,38 @@ class LoopRule:
             full = c.get("res_full") or c.get("fn_full") or ""
             if any(li and li in full for li in self.local_iters):
                 continue  # adaptor over a crate-local (input-driven) iterator
+            # the producer must be one instance for the whole loop: created outside this SCC, not re-created per pass
+            if not self._iterator_created_outside(body, scc, t):
+                continue
             out.append(b)
         return out
+
+    def _iterator_created_outside(self, body, scc, t):
+        if not t["args"]:
+            return False
+        pl = mir.op_place(t["args"][0])
+        if pl is None:
+            return False
+        l = pl["l"]
+        # &mut _it  ->  _it
+        for _ in range(4):
+            if 0 < l <= body.arg_count:
+                return True  # a parameter: created by the caller
+            ds = body.defs().get(l, [])
+            if len(ds) == 1 and ds[0][1] != "term" and ds[0][2]["k"] == "ref" and not ds[0][2]["place"]["p"]:
+                l = ds[0][2]["place"]["l"]
+                continue
+            if len(ds) == 1 and ds[0][1] != "term" and ds[0][2]["k"] == "ref" and ds[0][2]["place"]["p"]:
+                # a field of something (e.g. &mut self.iter): rooted at a parameter or an outer local
+                l = ds[0][2]["place"]["l"]
+                continue
+            break
+        if 0 < l <= body.arg_count:
+            return True
+        ds = body.defs().get(l, [])
+        if not ds:
+            return False
+        return all(d[0] not in scc for d in ds)
 
     def key_of(self, body, scc):
         """stable key: function + names of the calls made in the loop header block"""
@@ -57,69 +87,97 @@ class LoopRule:
         calls = sorted({strip_generics(mir.callee_name(body.term(b)) or "?").split("::")[-1] for b in scc if body.term(b)["k"] == "call"})
         return "%s:loop(%s)" % (body.short, ",".join(calls)[:120])
 
+    def _header_cycle_avoiding(self, body, scc, h, removed):
+        """is there a cycle through the header h inside scc that avoids all `removed` blocks?"""
+        removed = set(removed)
+        if h in removed:
+            return False
+        seen = set()
+        st = [x for x in body.succ(h) if x in scc and x not in removed]
+        while st:
+            b = st.pop()
+            if b == h:
+                return True
+            if b in seen:
+                continue
+            seen.add(b)
+            for n in body.succ(b):
+                if n in scc and n not in removed and (n == h or n not in seen):
+                    st.append(n)
+        return False
+
     def certify(self, body, scc, depth=0):
-        """-> (certificate name, detail) or (None, reason)"""
-        # L1 finite producer
-        P = self.finite_next_blocks(body, scc)
-        if P:
-            subs = scanai.sub_sccs(body, scc, P)
-            if not subs:
-                return "L1", "every cycle passes %s" % strip_generics(mir.callee_name(body.term(P[0])))
-            rs = [self.certify(body, s, depth + 1) for s in subs]
-            if all(r[0] for r in rs):
-                return "L1", "every outer cycle passes %s; %d inner loops certified (%s)" % (strip_generics(mir.callee_name(body.term(P[0]))).split(" as ")[0], len(subs), ",".join(r[0] for r in rs))
+        """-> (certificate name, detail) or (None, reason). Loop nesting: the inner loops (SCCs of scc minus its header)
+        are certified on their own; the certificate of scc itself then only has to cover the cycles through its header."""
+        h = scanai.header_of(body, scc)
+        inner = scanai.sub_sccs(body, scc, [h])
+        rs = [self.certify(body, s, depth + 1) for s in inner]
+        if not all(r[0] for r in rs):
             return None, "inner loop not certified: " + "; ".join(r[1] for r in rs if not r[0])
+        tail = ("; %d inner loop(s) certified (%s)" % (len(inner), ",".join(r[0] for r in rs))) if inner else ""
+        # L1 finite producer: one iterator instance, created outside this loop, stepped on every pass
+        P = self.finite_next_blocks(body, scc)
+        if P and not self._header_cycle_avoiding(body, scc, h, P):
+            return "L1", "every cycle through bb%d steps %s, an iterator created outside the loop%s" % (h, strip_generics(mir.callee_name(body.term(P[0]))).split(" as ")[0].lstrip("<"), tail)
         # L2 scanner measure
         if body.id in self.ai.touch():
-            h = scanai.header_of(body, scc)
             bad = scanai.measure_check(self.ai, body, scc, h)
             if not bad:
-                subs = scanai.sub_sccs(body, scc, [h])
-                rs = [self.certify(body, s, depth + 1) for s in subs]
-                if all(r[0] for r in rs):
-                    return "L2", "measure (bytes left + peeked + !eof, token rank) strictly decreases around every cycle through bb%d%s" % (h, ("; %d inner loops certified" % len(subs)) if subs else "")
-                return None, "inner loop not certified: " + "; ".join(r[1] for r in rs if not r[0])
+                return "L2", "measure (bytes left + peeked + !eof, token rank) strictly decreases around every cycle through bb%d%s" % (h, tail)
             (c0, e0, p0, t0, _), (c2, e2, p2, t2, _), pred = bad[0]
             return None, (
                 "a pass through the loop can return to its header (bb%d, via bb%d at %s) without consuming input: entered with eof=%s token=%s, "
                 "back with progress=%d eof=%s token=%s cur=%s"
                 % (h, pred, body.where(pred), bool(e0), ["empty", "some"][t0], p2, bool(e2), ["empty", "some", "?"][t2], scanai.mask_str(c2))
             )
-        # L3 visited set
-        r = self.visited_set(body, scc) or self.worklist(body, scc)
+        # L3 visited set / work list
+        r = self.visited_set(body, scc, h) or self.worklist(body, scc, h)
         if r:
-            return "L3", r
+            return "L3", r + tail
         return None, "no finite producer on every cycle, does not touch the scanner, no visited set"
 
-    def visited_set(self, body, scc):
-        """every cycle passes HashSet::insert / contains on a set of already-seen keys with an exit edge on 'seen'"""
-        ins = []
-        for b in scc:
-            t = body.term(b)
-            if t["k"] == "call":
-                nm = strip_generics(mir.callee_name(t) or "")
-                if nm in ("std::collections::HashSet::insert", "std::collections::HashSet::contains", "std::collections::BTreeSet::insert", "std::collections::BTreeSet::contains"):
-                    ins.append((b, nm))
-        for b, nm in ins:
-            # the boolean result must select between staying in the loop and leaving it
-            t = body.term(b)
-            nxt = t.get("t")
-            if nxt is None:
+    def visited_set(self, body, scc, h):
+        """every cycle through the header adds a key to a visited set that was not in it:
+        (a) it passes HashSet::insert(S, x) in a block dominated by the 'false' edge of HashSet::contains(S, x) on the
+            same set and the same key, or
+        (b) it passes the 'true' (newly inserted) edge of a switch on the result of HashSet::insert(S, x).
+        The set only grows, so over a finite key universe (a finite, possibly cyclic, ref graph) the loop stops."""
+        SET_INS = ("std::collections::HashSet::insert", "std::collections::BTreeSet::insert")
+        SET_HAS = ("std::collections::HashSet::contains", "std::collections::BTreeSet::contains")
+        good = []
+        why = None
+        for ib in scc:
+            it = body.term(ib)
+            if it["k"] != "call" or strip_generics(mir.callee_name(it) or "") not in SET_INS:
                 continue
-            # find the switch on the result
-            dl = t["dest"]["l"]
-            for sb in scc:
-                st = body.term(sb)
-                if st["k"] == "switch":
-                    v = G.describe(body, st["op"])
-                    if v.kind == "call" and v.v == nm or (v.kind == "unop" and v.args and v.args[0].kind == "call" and v.args[0].v == nm):
-                        succ = body.succ(sb)
-                        leaves = [x for x in succ if x not in scc or not self._reaches_within(body, x, scc, sb)]
-                        if leaves and not scanai.sub_sccs(body, scc, [sb]):
-                            return "every cycle passes the switch on %s (bb%d); the 'already seen' edge leaves the loop" % (nm.split("::")[-1], sb)
+            s_repr = repr(G.describe(body, it["args"][0]))
+            a1 = G.describe(body, it["args"][1])
+            x_repr = repr(a1.args[0]) if (a1.kind == "call" and a1.v.endswith("::clone") and a1.args) else repr(a1)
+            for g in G.guards_at(body, ib):
+                if g.op == "False" and g.a.kind == "call" and g.a.v in SET_HAS and repr(g.a.args[0]) == s_repr and repr(g.a.args[1]) == x_repr:
+                    good.append(ib)
+                    why = "insert(%s) under contains(..)==false on the same set and key" % x_repr
+            # (b) insert result decides
+            nxt = it.get("t")
+            if nxt is not None and body.term(nxt)["k"] == "switch":
+                v = G.describe(body, body.term(nxt)["op"])
+                core = v.args[0] if (v.kind == "unop" and v.args) else v
+                if core.kind == "call" and core.v in SET_INS:
+                    sw = body.term(nxt)
+                    # blocks on the 'already present' side must not lead back to the header
+                    truthy = 0 if v.kind == "unop" else 1
+                    for val, tb in sw["targets"]:
+                        pass
+                    vals = {int(x[0]): x[1] for x in sw["targets"]}
+                    seen_edge = vals.get(0 if truthy == 1 else 1, sw["otherwise"])
+                    if seen_edge not in scc or not self._reaches_within(body, seen_edge, scc, h):
+                        good.append(ib)
+                        why = "the 'already present' result of insert(%s) cannot lead back to the loop header" % x_repr
+        if good and not self._header_cycle_avoiding(body, scc, h, good):
+            return "every cycle through bb%d records a key that was not yet in the visited set: %s" % (h, why)
         return None
 
-    def worklist(self, body, scc):
+    def worklist(self, body, scc, h):
         """work-list traversal with a visited set: every cycle pops the work list (or is a finite inner iteration) and every
         push onto it is dominated by the 'newly inserted' edge of HashSet::insert on the visited set; so pushes are bounded
         by the number of distinct elements and every outer pass removes one entry"""
@@ -138,8 +196,7 @@ class LoopRule:
         w = pops[0][1]
         if any(x != w for _, x in pops):
             return None
-        P = self.finite_next_blocks(body, scc)
-        if scanai.sub_sccs(body, scc, [b for b, _ in pops] + P):
+        if self._header_cycle_avoiding(body, scc, h, [b for b, _ in pops]):
             return None
         n = 0
         for b, recv in pushes:
@@ -152,7 +209,25 @@ class LoopRule:
             if not ok:
                 return None
             n += 1
-        return "work list %s: every cycle pops it or steps a finite iterator; its %d push site(s) are dominated by the 'newly inserted' edge of the visited-set insert" % (w, n)
+        return "work list %s: every cycle through the header pops it; its %d push site(s) are dominated by the 'newly inserted' edge of the visited-set insert" % (w, n)
+
+    def _all_paths_to_header_hit(self, body, scc, start, header, hits):
+        hits = set(hits)
+        if start in hits:
+            return True
+        seen = {start}
+        st = [start]
+        while st:
+            b = st.pop()
+            for n in body.succ(b):
+                if n not in scc or n in hits:
+                    continue
+                if n == header:
+                    return False
+                if n not in seen:
+                    seen.add(n)
+                    st.append(n)
+        return True
 
     def _reaches_within(self, body, x, scc, target):
         seen = {x}
